@@ -267,6 +267,7 @@ def catalog(tier, families=("prim", "dep", "bool", "product", "transform", "nest
             out.append(("Rotate(%s)" % kind, (lambda env, kind=kind: rotate(env, PRIMS[kind](env, tag="A"))),
                         dict(fam="transform")))
         out.append(("Translate[t](Circle)", lambda env: translate(env, circle(env, tag="A"), dep="t"), dict(fam="transform", dep=True)))
+        out.append(("Translate[t](Parallelogram)", lambda env: translate(env, parallelogram(env, tag="A"), dep="t"), dict(fam="transform", dep=True)))
         out.append(("Rotate[t](Parallelogram)", lambda env: rotate(env, parallelogram(env, tag="A"), dep="t"), dict(fam="transform", dep=True)))
     if "nested" in families and tier == "thorough":
         out.append(("((Circle-Parallelogram)+Triangle)",
